@@ -2,6 +2,7 @@ package util
 
 import (
 	"net/http"
+	"strings"
 
 	middlewareapi "github.com/oauth2-proxy/oauth2-proxy/v7/pkg/apis/middleware"
 )
@@ -39,6 +40,16 @@ func GetRequestURI(req *http.Request) string {
 	if !IsProxied(req) || uri == "" {
 		// Use RequestURI to preserve ?query
 		uri = req.URL.RequestURI()
+	}
+	return uri
+}
+
+// GetRequestPath returns the request URI or X-Forwarded-Uri if present and the
+// request is proxied, with the query string stripped.
+func GetRequestPath(req *http.Request) string {
+	uri := GetRequestURI(req)
+	if idx := strings.IndexByte(uri, '?'); idx != -1 {
+		return uri[:idx]
 	}
 	return uri
 }
